@@ -10,8 +10,9 @@ import SaphyrVerif.Lemmas.C19Token
 
 Property theorems about the model of `src/robotics.rs` / `parse_scalars.rs::parse_yaml12_float`
 (`Model/Robotics.lean`) over the IEEE-754 model `Model/F64.lean`.
-Helper lemmas: `Lemmas/C19Total.lean`, `Lemmas/C19Float.lean`.  Counter-example theorems (the property
-is violated by the code on these witnesses) are in `Props/C19_Findings.lean`.
+Helper lemmas: `Lemmas/C19*.lean`.  The model is the code AFTER the repairs bebcb49 (`starts_ci` compares
+bytes) and 78f916b (plain literals are returned as parsed); `Props/C19_Findings.lean` keeps the former
+counter-example witnesses as regression examples of the repaired behaviour.
 -/
 namespace SaphyrVerif.Props.C19
 open SaphyrVerif SaphyrVerif.F64 SaphyrVerif.Robotics SaphyrVerif.Spec.Robotics
@@ -25,27 +26,77 @@ def Res.total {α} : Res α → Prop
 
 /-! ## totality -/
 
-/-- Full statement of the totality clause: every scalar text (any Unicode string) requested as a float
-with the option on is evaluated to a value or an error.  FALSE for the code as it is — see
-`C19_Findings.eval_total_counterexample` (`&self.s[i..i+4]` in `starts_ci` slices inside a multi-byte
-character). -/
-def eval_total_Full : Prop := ∀ (tag : Nat) (s : List Char), Res.total (evalExpr tag (utf8 s))
-
-/-- (T, partial) totality clause for every input without UTF-8 continuation bytes (in particular every
-ASCII text), every tag: no panic (no slice off a char boundary, no `b[i-1]` out of range, no `depth`
-under/overflow) and no fuel exhaustion.  Missing for `eval_total_Full`: texts containing multi-byte
-characters, for which the statement is false. -/
-theorem eval_total_partial (tag : Nat) (s : List Nat) (h : ∀ c ∈ s, isCont c = false) :
+/-- (T) `eval_total`, byte level: for every byte string in which continuation bytes occur only directly
+behind non-ASCII bytes (every suffix of the bytes of a `str` is such), every tag: a value or an error —
+no panic (no `str` slice off a char boundary, no `b[i-1]` out of range, no `depth` under/overflow) and
+no fuel exhaustion. -/
+theorem eval_total_bytes (tag : Nat) (s : List Nat) (h : Lemmas.C19.AdjOk s) :
     Res.total (evalExpr tag s) := by
   have := Lemmas.C19.evalExpr_good (ap := false) tag s (Or.inr h)
   revert this
   cases evalExpr tag s <;> simp [Lemmas.C19.TopGood, Res.total]
 
-theorem eval_total_ascii (tag : Nat) (s : List Nat) (h : ∀ c ∈ s, c < 128) : Res.total (evalExpr tag s) :=
-  eval_total_partial tag s (Lemmas.C19.NoCont.of_ascii h)
+/-- (T) `eval_total` at full strength: EVERY scalar text (any Unicode string), every tag, is evaluated
+to a value or an error — never a panic, never unbounded recursion or work.  (Before bebcb49 this was
+false: `&self.s[i..i+4]` in `starts_ci` could end inside a multi-byte character.) -/
+theorem eval_total (tag : Nat) (s : List Char) : Res.total (evalExpr tag (utf8 s)) :=
+  eval_total_bytes tag (utf8 s) (Lemmas.C19.utf8_ok s).1
 
-/-- (T) bounded recursion and bounded work for EVERY byte string (also those on which the code
-panics): the model runs `expr` with recursion fuel `MAX_EXPR_DEPTH + 1` — one unit per nesting level
+/-- (T) the call site is total as well: `parse_yaml12_float` with the option on or off, either width. -/
+theorem parse_float_total (f32 : Bool) (s : List Char) (tag : Nat) (angle : Bool) :
+    (∃ v, parseYaml12Float f32 s tag angle = .ok v) ∨ parseYaml12Float f32 s tag angle = .invalid ∨
+    (∃ e, parseYaml12Float f32 s tag angle = .hook e) := by
+  have ht := eval_total tag s
+  have hp : (∃ v, parsePlain (fmtOf f32) s = .ok v) ∨ parsePlain (fmtOf f32) s = .invalid := by
+    unfold parsePlain
+    simp only []
+    split
+    · exact Or.inl ⟨_, rfl⟩
+    · split
+      · exact Or.inl ⟨_, rfl⟩
+      · split
+        · exact Or.inl ⟨_, rfl⟩
+        · split
+          · exact Or.inl ⟨_, rfl⟩
+          · exact Or.inr rfl
+  have hev : (∃ v, (match evalExpr tag (utf8 s) with
+      | .ok v => FRes.ok (fromF64 f32 v) | .err e _ => .hook e | .panic p => .panic p | .fuel => .fuel) = .ok v) ∨
+      (∃ e, (match evalExpr tag (utf8 s) with
+      | .ok v => FRes.ok (fromF64 f32 v) | .err e _ => .hook e | .panic p => .panic p | .fuel => .fuel) = .hook e) := by
+    revert ht
+    cases evalExpr tag (utf8 s) with
+    | ok v => intro _; exact Or.inl ⟨_, rfl⟩
+    | err e d => intro _; exact Or.inr ⟨_, rfl⟩
+    | panic p => intro h; exact absurd h (by simp [Res.total])
+    | fuel => intro h; exact absurd h (by simp [Res.total])
+  unfold parseYaml12Float
+  simp only []
+  cases angle with
+  | false =>
+    simp only [Bool.false_eq_true, ↓reduceIte]
+    rcases hp with ⟨v, hv⟩ | hi
+    · exact Or.inl ⟨v, hv⟩
+    · exact Or.inr (Or.inl hi)
+  | true =>
+    simp only [↓reduceIte]
+    rcases hp with ⟨v, hv⟩ | hi
+    · rw [hv]
+      simp only []
+      split
+      · exact Or.inl ⟨v, rfl⟩
+      · rcases hev with h | h
+        · exact Or.inl h
+        · exact Or.inr (Or.inr h)
+    · rw [hi]
+      simp only []
+      rcases hev with h | h
+      · exact Or.inl h
+      · exact Or.inr (Or.inr h)
+
+theorem eval_total_ascii (tag : Nat) (s : List Nat) (h : ∀ c ∈ s, c < 128) : Res.total (evalExpr tag s) :=
+  eval_total_bytes tag s (Lemmas.C19.AdjOk.of_noCont (Lemmas.C19.NoCont.of_ascii h))
+
+/-- (T) bounded recursion and bounded work for EVERY byte string (valid UTF-8 or not): the model runs `expr` with recursion fuel `MAX_EXPR_DEPTH + 1` — one unit per nesting level
 `expr → term → unary → primary → expr`, i.e. at most `4 · (MAX_EXPR_DEPTH + 1)` parser frames — and
 gives every `loop` of `expr`/`term` `length + 1` iterations; neither fuel is ever exhausted. All other
 loops are structural recursions over the remaining bytes. -/
@@ -151,37 +202,60 @@ value rounded once to the target format. -/
 theorem plain_literal_value (f : Fmt) (l : PlainLit) (hwf : l.WF) : fromStr f l.render = some (l.value f) :=
   Lemmas.C19L.fromStr_lit f l hwf
 
-/-- (T) `plain_literal_unchanged_f64`: for every ordinary decimal literal with at most `MAX_NUM_DIGITS`
-digits, every tag class except `!degrees`, the f64 result with the option ON equals the result with the
-option OFF — both are the correctly rounded exact decimal value (signs included: `sign * v` is exact).
-Not covered: white space around the literal, literals above the digit cap (rejected when on, see
-findings), the `!degrees` tag (converts by design). -/
-theorem plain_literal_unchanged_f64 (l : PlainLit) (hwf : l.WF) (hcap : l.digitCount ≤ MAX_NUM_DIGITS)
-    (tag : Nat) (htag : tag ≠ TAG_DEGREES) :
-    parseYaml12Float false (l.render.map Char.ofNat) tag true = .ok (l.value binary64) ∧
-    parseYaml12Float false (l.render.map Char.ofNat) tag false = .ok (l.value binary64) := by
-  constructor
-  · unfold parseYaml12Float
-    simp only [↓reduceIte]
-    rw [Lemmas.C19L.utf8_chars _ (Lemmas.C19L.allowed_render l hwf), Lemmas.C19L.evalExpr_lit tag htag l hwf hcap]
-    rfl
-  · rw [option_off_unchanged]
-    exact Lemmas.C19L.parsePlain_lit binary64 l hwf
+/-- (T) `plain_literal_unchanged` at full strength (both widths): whatever text the plain reading
+accepts — decimal literals of any length, `inf`/`infinity`/`nan` in any case, the `.inf`/`.nan` forms,
+Unicode white space around them — keeps EXACTLY that value when the option is switched on, for every
+tag class except `!degrees` (which converts by design). -/
+theorem plain_literal_unchanged (f32 : Bool) (s : List Char) (tag : Nat) (htag : tag ≠ TAG_DEGREES) (v : Fl)
+    (h : parseYaml12Float f32 s tag false = .ok v) : parseYaml12Float f32 s tag true = .ok v := by
+  rw [option_off_unchanged] at h
+  unfold parseYaml12Float
+  have ht : (tag != TAG_DEGREES) = true := by simpa using htag
+  simp only [↓reduceIte, h, ht]
 
-/-- (T) the same literal for an `f32` target: option off = ONE rounding of the exact decimal to binary32;
-option on = the binary64 value narrowed (TWO roundings).  The two differ exactly when double rounding
-bites (`C19_Findings.f32_double_rounding`). -/
-theorem plain_literal_f32 (l : PlainLit) (hwf : l.WF) (hcap : l.digitCount ≤ MAX_NUM_DIGITS)
-    (tag : Nat) (htag : tag ≠ TAG_DEGREES) :
-    parseYaml12Float true (l.render.map Char.ofNat) tag false = .ok (l.value binary32) ∧
-    parseYaml12Float true (l.render.map Char.ofNat) tag true = .ok (convert binary32 (l.value binary64)) := by
-  constructor
-  · rw [option_off_unchanged]
-    exact Lemmas.C19L.parsePlain_lit binary32 l hwf
-  · unfold parseYaml12Float
-    simp only [↓reduceIte]
-    rw [Lemmas.C19L.utf8_chars _ (Lemmas.C19L.allowed_render l hwf), Lemmas.C19L.evalExpr_lit tag htag l hwf hcap]
-    rfl
+/-- (T) f64 instance -/
+theorem plain_literal_unchanged_f64 (s : List Char) (tag : Nat) (htag : tag ≠ TAG_DEGREES) (v : Fl)
+    (h : parseYaml12Float false s tag false = .ok v) : parseYaml12Float false s tag true = .ok v :=
+  plain_literal_unchanged false s tag htag v h
+
+/-- (T) f32 instance: no double rounding any more (the former counter-example
+`1.00000005960464477540` is a regression example in `C19_Findings`). -/
+theorem plain_literal_unchanged_f32 (s : List Char) (tag : Nat) (htag : tag ≠ TAG_DEGREES) (v : Fl)
+    (h : parseYaml12Float true s tag false = .ok v) : parseYaml12Float true s tag true = .ok v :=
+  plain_literal_unchanged true s tag htag v h
+
+/-- (T) the value itself, for ordinary decimal literals `[+-] digits [. digits] [(e|E) [+-] digits]`
+(any number of digits), either width, option on or off, tag ≠ `!degrees`: the exact decimal value
+rounded ONCE into the target format. -/
+theorem plain_literal_exact (f32 : Bool) (l : PlainLit) (hwf : l.WF) (tag : Nat) (htag : tag ≠ TAG_DEGREES)
+    (angle : Bool) :
+    parseYaml12Float f32 (l.render.map Char.ofNat) tag angle = .ok (l.value (fmtOf f32)) := by
+  have hoff : parseYaml12Float f32 (l.render.map Char.ofNat) tag false = .ok (l.value (fmtOf f32)) := by
+    rw [option_off_unchanged]
+    exact Lemmas.C19L.parsePlain_lit (fmtOf f32) l hwf
+  cases angle with
+  | false => exact hoff
+  | true => exact plain_literal_unchanged f32 _ tag htag _ hoff
+
+/-- (T) what the EVALUATOR makes of an ordinary literal (≤ `MAX_NUM_DIGITS` digits) — the path taken
+under `!degrees`, and for literals inside larger expressions: the same correctly rounded value (the
+`sign * v` of `unary` is exact), converted to radians by ONE multiplication under `!degrees`. -/
+theorem evaluator_on_literal (l : PlainLit) (hwf : l.WF) (hcap : l.digitCount ≤ MAX_NUM_DIGITS) (tag : Nat) :
+    evalExpr tag l.render =
+      .ok (if tag == TAG_DEGREES then mul F (l.value binary64) DEG2RAD else l.value binary64) :=
+  Lemmas.C19L.evalExpr_lit_any tag l hwf hcap
+
+/-- (T) an ordinary literal under the `!degrees` tag, f64: the value in degrees times `DEG2RAD`, once. -/
+theorem degrees_tag_literal (l : PlainLit) (hwf : l.WF) (hcap : l.digitCount ≤ MAX_NUM_DIGITS) :
+    parseYaml12Float false (l.render.map Char.ofNat) TAG_DEGREES true =
+      .ok (mul F (l.value binary64) DEG2RAD) := by
+  have hoff := Lemmas.C19L.parsePlain_lit binary64 l hwf
+  unfold parseYaml12Float
+  simp only [↓reduceIte, fmtOf, Bool.false_eq_true]
+  rw [hoff]
+  simp only [bne_self_eq_false, Bool.false_eq_true, ↓reduceIte]
+  rw [Lemmas.C19L.utf8_chars _ (Lemmas.C19L.allowed_render l hwf), Lemmas.C19L.evalExpr_lit_any TAG_DEGREES l hwf hcap]
+  simp [fromF64]
 
 /-- (E) the hypotheses are satisfiable: `-12.5e+3` is an ordinary literal; its value is −12500. -/
 example : (⟨some true, [49, 50], some [53], some (false, some false, [51])⟩ : PlainLit).render =
@@ -195,8 +269,7 @@ followed by bytes `k` that do not continue it, is scanned as exactly that token 
 correctly rounded exact decimal value of the same number written WITHOUT the separators
 (`t.plain.value`).  This discharges `TokenOk` for decimal number leaves of `eval_eq_ast`. -/
 theorem number_token_value (tag : Nat) (tm : Bool) (t : NumTok) (hwf : t.WF)
-    (hcap : t.plain.digitCount ≤ MAX_NUM_DIGITS) (k : List Nat) (hk : StopsToken k)
-    (hnc : ∀ c ∈ k, isCont c = false) :
+    (hcap : t.plain.digitCount ≤ MAX_NUM_DIGITS) (k : List Nat) (hk : StopsToken k) :
     TokenOk tag tm t.render k (t.plain.value binary64, false, true) := by
   refine ⟨?_, [], 0, ?_⟩
   · obtain ⟨c, r, h, hc⟩ := Lemmas.C19L.tok_head t hwf k
@@ -204,12 +277,11 @@ theorem number_token_value (tag : Nat) (tm : Bool) (t : NumTok) (hwf : t.WF)
     rcases hc with h | ⟨h, _⟩
     · exact Or.inl h
     · exact Or.inr h
-  · exact Lemmas.C19L.parseNumberOrSpecial_tok tag t hwf hcap k hk hnc [] 0 tm
+  · exact Lemmas.C19L.parseNumberOrSpecial_tok tag t hwf hcap k hk [] 0 tm
 
 /-- (T) the YAML forms `.inf` / `.nan` in any letter case denote +∞ / NaN (a bare value); a leading sign
 is a unary sign of the grammar. -/
-theorem dot_special_token_value (tag : Nat) (tm : Bool) (a b c d : Nat) (k : List Nat)
-    (hnc : ∀ x ∈ a :: b :: c :: d :: k, isCont x = false) :
+theorem dot_special_token_value (tag : Nat) (tm : Bool) (a b c d : Nat) (k : List Nat) :
     ([a, b, c, d].map lowerByte = [46, 105, 110, 102] → TokenOk tag tm [a, b, c, d] k (.inf false, false, true)) ∧
     ([a, b, c, d].map lowerByte = [46, 110, 97, 110] → TokenOk tag tm [a, b, c, d] k (.nan, false, true)) := by
   have key : ∀ ev, (∀ pre dp, parseNumberOrSpecial tag ⟨pre, a :: b :: c :: d :: k, dp, tm⟩ =
@@ -225,9 +297,9 @@ theorem dot_special_token_value (tag : Nat) (tm : Bool) (a b c d : Nat) (k : Lis
     · exact ha
   constructor
   · intro hl
-    exact key _ (fun pre dp => Lemmas.C19L.dotInf_tok tag a b c d hl k hnc pre dp tm) (by simp at hl; exact hl.1)
+    exact key _ (fun pre dp => Lemmas.C19L.dotInf_tok tag a b c d hl k pre dp tm) (by simp at hl; exact hl.1)
   · intro hl
-    exact key _ (fun pre dp => Lemmas.C19L.dotNan_tok tag a b c d hl k hnc pre dp tm) (by simp at hl; exact hl.1)
+    exact key _ (fun pre dp => Lemmas.C19L.dotNan_tok tag a b c d hl k pre dp tm) (by simp at hl; exact hl.1)
 
 /-- (E) `1_000.2_5e1_0` is such a token; without separators it is `1000.25e10`. -/
 example : (⟨[[49], [48, 48, 48]], some [[50], [53]], some (false, none, [[49], [48]])⟩ : NumTok).render =
